@@ -2558,6 +2558,28 @@ pub(crate) fn constrain_type(expr: &mut TypedExpr, expected: &Type) -> Result<()
                 overwrite_ty_if_necessary(actual, elem_ty);
             }
         }
+        (
+            ExprEnum::Range(_, to, num_ty),
+            Type::Array(elem_ty, _) | Type::ArrayConst(elem_ty, _),
+        ) if *num_ty == UnsignedNumType::Unspecified => {
+            // like an unsuffixed number, an unsuffixed range takes the element type of the array it
+            // is checked against, so its largest element must be a value of that type
+            let max = match elem_ty.as_ref() {
+                Type::Unsigned(ty) => ty.max(),
+                Type::Signed(ty) => ty.max().map(|max| max as u64),
+                _ => None,
+            };
+            if max.is_some_and(|max| *to - 1 > max) {
+                let e = TypeErrorEnum::UnexpectedType {
+                    expected: expected.clone(),
+                    actual: expr.ty.clone(),
+                };
+                return Err(vec![Some(TypeError::new(e, expr.meta))]);
+            }
+            if let Type::Unsigned(ty) = elem_ty.as_ref() {
+                *num_ty = *ty;
+            }
+        }
         (ExprEnum::Identifier(_), Type::Tuple(elem_tys)) => {
             if let Type::Tuple(actual_elem_tys) = &mut expr.ty {
                 for (actual, expected) in actual_elem_tys.iter_mut().zip(elem_tys) {
